@@ -1,6 +1,8 @@
 import NomtModel.Store.StageGlueUpdate
 import NomtModel.Store.LeafUpdKV
 import NomtModel.Store.BranchUpdExamples
+import NomtModel.Store.StageGlueFilterMulti
+import NomtModel.Store.ExtRangeToy
 /-!
 # C01 — the whole beatree update (`ops::update`: leaf stage → branch stage) is the sequential model
 
@@ -13,7 +15,8 @@ Property theorems about the mirror `Store/StageGlueModel.lean` of the GLUE of th
 `Store/LeafUpdModel.lean` / `Store/BranchUpdModel.lean`; their stage theorems (`T1_leaf_update_is_kvApply`,
 `T1_branch_update_is_kvApply`, `T16_branch_level_closed`) are composed here.
 
-Vocabulary: `TreeOK t` — a non-empty beatree: `LeafUpd.DbOK` leaves, none empty, the first under the zero key; a
+Vocabulary: `TreeOK t` — a beatree, the EMPTY one (no leaf, no branch node: a fresh store) included: `LeafUpd.DbOK` leaves,
+none empty, the first under the zero key; a
 `BranchUpd.DbOK kfReal` branch level; the branch level lists exactly (separator, page number) of the leaves.
 `UpdateOK` — `Store/StageGlueUpdate.lean`.  `lnFresh k` / `bbnFresh k` = the page the `k`-th `allocate()` of the sync
 returns in the leaf / bbn store; `a0` = the pages `overflow::chunk` took for the `InsertOverflow` values of the batch.
@@ -25,9 +28,10 @@ open Nomt.BranchUpd (kfReal)
 
 variable {V : Type} [CellSize V]
 
-/-- **T1.update_is_kvApply** — the whole `ops::update` (both stages, one worker, the code as it is) on a well-formed
-non-empty tree with content `S` and ANY ascending batch `cs` (also the empty one, one that changes no leaf, one that
-empties the first leaf, a run of leaves or the whole tree):
+/-- **T1.update_is_kvApply** — the whole `ops::update` (both stages, one worker, the code as it is) on EVERY well-formed
+tree — the empty tree of a fresh or emptied store included — with content `S` and ANY ascending batch `cs` (also the empty
+one, one that changes no leaf — finding F11's batch on the empty tree —, one that empties the first leaf, a run of leaves or
+the whole tree, one that refills an emptied tree):
 * reaches no panic site — none of the two updaters, not `assert!(entry.deleted.is_none())` of `NodesTracker::delete`, not the
   `assert!`s of `filter_*_changeset` nor `branch_changeset.len() - 1` (the branch twin of F11's site), not the `unwrap` /
   indexings of `enforce_first_leaf_separator` — and every loop terminates;
@@ -75,6 +79,52 @@ theorem T1_filter_changeset_spec {α : Type} (leaf : Bool) (l : List (Nat × Opt
       (l.Pairwise (fun a b => a.1 < b.1) → ExtRange.filterCs leaf l = some l) :=
   ⟨filterCs_spec leaf l hne h, (mergePairs_asc _ h).1, (mergePairs_asc _ h).2, fun ha => filterCs_of_asc leaf l hne ha⟩
 
+/-- **T1.filter_disjoint_workers** — several workers.  If every worker's list is in key order (its tracker is a `BTreeMap`) and
+NO separator is held by two workers' trackers, then for the concatenation of the lists in ANY order of completion:
+`filter_*_changeset` reaches neither of its `assert!`s (nor `len() - 1` on a non-empty list), removes nothing, and returns
+the strictly ascending sort of all entries — the duplicate branch is dead and `PairInv` holds trivially.  The premise is an
+invariant of the extend-range protocol that is NOT proved here for every schedule (an `ExtendRangeResponse` MOVES entries
+out of the responder's tracker, `T19_answer_conserves_entries`; ranges are adjacent, `T16_ranges_adjacent_every_schedule`;
+what is missing: "every key of a worker's tracker lies inside its current range", which needs the updaters' lower
+bounds on the separators they emit); it is kernel-checked on the toy instances below and was measured on the real code
+(1 439 multi-worker stage runs, 10 670 tracker keys: no key in two trackers). -/
+theorem T1_filter_disjoint_workers {α : Type} (leaf : Bool) (parts : List (List (Nat × Option α)))
+    (hasc : ∀ p ∈ parts, p.Pairwise (fun a b => a.1 < b.1))
+    (hdis : parts.Pairwise (fun p q => ∀ a ∈ p, ∀ b ∈ q, a.1 ≠ b.1)) (hne : leaf = true ∨ parts.flatten ≠ []) :
+    ExtRange.filterCs leaf parts.flatten = some (ExtRange.sortCs parts.flatten) ∧
+      (ExtRange.sortCs parts.flatten).Pairwise (fun a b => a.1 < b.1) ∧
+      (ExtRange.sortCs parts.flatten).Perm parts.flatten :=
+  filterCs_of_nodup leaf _ hne (keys_nodup_of_disjoint parts hasc hdis)
+
+/-- the separators of the entries every worker hands to `apply_*_changes` when all workers have returned, worker by worker -/
+def finalKeys {σ N C : Type} (g : ExtRange.G σ N C) : List (List Nat) :=
+  (List.range g.n).map fun i => (ExtRange.workerChanges (g.ws i)).1.map (·.1)
+
+/-- the toy stage with two workers under the schedule `s` followed by round robin: the workers' final separators -/
+def toyFinalKeys (nodes : List (List Nat)) (cs : List (Nat × Bool)) (s : List Nat) : Option (List (List Nat)) :=
+  let db := ExtRange.Toy.mkDb nodes
+  let wps := ExtRange.prepareWorkers (ExtRange.Toy.look db) (cs.map (·.1)) 2
+  let g0 := ExtRange.initG ExtRange.Toy.upd {} db cs wps
+  match ExtRange.runSched ExtRange.Toy.upd {} db s g0 with
+  | .inl _ => none
+  | .inr g1 =>
+    match ExtRange.runPolicy ExtRange.Toy.upd {} db (List.range g1.n) 1 400 g1 with
+    | some (.inr g) => some (finalKeys g)
+    | _ => none
+
+/-- **T1.workers_trackers_disjoint_partial** (kernel-checked, Q30's toy updater) — on the instance "under-full last node +
+emptied first node of the right worker + granted unchanged range + second merge" under ALL 128 schedules whose first 21 steps
+are 7 freely chosen bursts of either worker: when the workers have returned no separator is held by both, although entries
+did travel from the right worker to the left one (the left worker ends with the separators 30, 33, 40 of the right worker's
+initial range; every schedule ends with the same two lists) — the premise of `T1_filter_disjoint_workers`. -/
+theorem T1_workers_trackers_disjoint_partial :
+    (ExtRange.Toy.allPicks 7).all (fun s =>
+      match toyFinalKeys ExtRange.Toy.lvlA ExtRange.Toy.csA (s.flatMap fun i => [i, i, i]) with
+      | some ks => decide (ks.flatten.Nodup) && decide (ks.length = 2)
+      | none => false) = true ∧
+    toyFinalKeys ExtRange.Toy.lvlA ExtRange.Toy.csA [] = some [[10, 20, 30, 33, 40], [50]] := by
+  constructor <;> decide +kernel
+
 /-- **T1.filter_three_equal_keys_example** (kernel-checked; the question of `notes/Q30.md` (e) 5) — outside the producer
 invariant: three entries under one separator `(Some a, None, Some b)` pass both `assert!`s, index 1 is collected twice, and
 the removal from the back deletes the entries at positions 1 AND 2: the FIRST insertion survives, the last one is dropped
@@ -89,6 +139,84 @@ theorem T1_filter_three_equal_keys_example :
     ExtRange.filterCs true ([] : List (Nat × Option Nat)) = some [] ∧
     ExtRange.filterCs false ([] : List (Nat × Option Nat)) = none := by
   decide
+
+/-! ## finding F11: the first commit of a store that changes no leaf -/
+
+/-- the empty tree of a fresh store -/
+def emptyTree : Tree Nat := { index := [], leaves := [], lpn := fun _ => 0 }
+
+theorem emptyTree_ok : TreeOK emptyTree where
+  leaves := ⟨trivial, (by intro l hl; cases hl), (by intro l hl; cases hl)⟩
+  index := trivial
+  level := rfl
+
+/-- **T1.F11_first_commit_changes_no_leaf** — finding F11 as a theorem about the repaired code: on the EMPTY tree a batch
+that only deletes (absent) keys — `Write(None)` of keys that were never written, the first commit of a store — goes through
+`ops::update` without reaching a panic site: the leaf changeset is empty, `filter_leaves_changeset` (with
+`saturating_sub`) returns it, the branch stage returns early, nothing is allocated or released, the tree stays empty. -/
+theorem T1_F11_first_commit_changes_no_leaf {V : Type} [CellSize V] (pagesOf : V → List Nat) (lnFresh bbnFresh : Nat → Nat)
+    (t : Tree V) (ht : TreeOK t) (hempty : t.leaves = []) (cs : List (Nat × Option (V × Bool))) (lo : Nat)
+    (hcs : LeafUpd.ChOK (2 ^ 256) lo cs) (hdel : ∀ c ∈ cs, c.2 = none) :
+    ∃ o, update LeafUpd.sepReal kfReal pagesOf lnFresh bbnFresh false t cs 0 = some o ∧
+      o.leafLevel = [] ∧ BranchUpd.flat o.index = [] ∧ o.lnFreed = [] := by
+  obtain ⟨o, e, h⟩ := update_spec pagesOf lnFresh bbnFresh 0 t cs lo ht hcs (fun _ => rfl)
+  have hflat : LeafUpd.flatOut o.leafLevel = [] := by
+    rw [h.content, hempty]
+    have key : ∀ (cs : List (Nat × Option (V × Bool))), (∀ c ∈ cs, c.2 = none) →
+        applyAll ([] : List (Entry V)) cs = [] := by
+      intro cs
+      induction cs with
+      | nil => intro _; rfl
+      | cons c r ih =>
+        intro hd
+        show applyAll (LeafUpd.write1 [] c.1 c.2) r = []
+        rw [hd c (by simp)]
+        exact ih (fun c' hc' => hd c' (by simp [hc']))
+    exact key cs hdel
+  have hlvl : o.leafLevel = [] := by
+    cases hl : o.leafLevel with
+    | nil => rfl
+    | cons a r =>
+      exfalso
+      have hne : a.ents ≠ [] := by
+        cases a with
+        | old l => have := h.olds l (by rw [hl]; simp); rw [hempty] at this; cases this
+        | new l => exact (h.news l (by rw [hl]; simp)).1
+      rw [hl] at hflat
+      have : a.ents = [] := by
+        have e2 : LeafUpd.flatOut (a :: r) = a.ents ++ LeafUpd.flatOut r := rfl
+        rw [e2] at hflat
+        exact (List.append_eq_nil_iff.1 hflat).1
+      exact hne this
+  refine ⟨o, e, hlvl, by rw [h.level, hlvl]; rfl, ?_⟩
+  obtain ⟨fl, h1, h2⟩ := h.ln_freed
+  rw [hempty] at h1 h2
+  simp only [List.filter_nil, List.map_nil] at h2
+  rw [h1, List.Perm.eq_nil h2]
+  simp [LeafUpd.flat, LeafUpd.ovfLog]
+
+/-- **T1.F11_len_minus_one_counterexample** (kernel-checked) — the code BEFORE the repair of F11 (flag `f11` of the mirror:
+`filter_leaves_changeset` computes `leaf_changeset.len() - 1` the way `filter_branch_changeset` still does): the same first
+commit — the empty tree, one deletion of an absent key — reaches the underflow (`none`), while the code as it is returns the
+empty tree; on a non-empty changeset the two variants agree. -/
+theorem T1_F11_len_minus_one_counterexample :
+    update LeafUpd.sepReal kfReal (fun _ : Nat => []) (fun k => 100 + k) (fun k => 200 + k) false emptyTree
+      [(7, none)] 0 true = none ∧
+    (update LeafUpd.sepReal kfReal (fun _ : Nat => []) (fun k => 100 + k) (fun k => 200 + k) false emptyTree
+      [(7, none)] 0).map (fun o => (o.leafChangeset, o.index.length, o.lnFreed)) = some ([], 0, []) ∧
+    (update LeafUpd.sepReal kfReal (fun _ : Nat => []) (fun k => 100 + k) (fun k => 200 + k) false emptyTree
+      [(7, some (20, false))] 0 true).map (fun o => (o.leafChangeset, (BranchUpd.flat o.index).map fun e => (e.key, e.val))) =
+      some ([(0, some 100)], [(0, 100)]) := by
+  decide +kernel
+
+/-- the first commit of a store that writes: the hypotheses of `T1_update_is_kvApply` hold on the empty tree, and
+(kernel-evaluated) two inserted keys give ONE leaf under the ZERO key at the first allocated page and one branch node -/
+example : TreeOK emptyTree ∧
+    (update LeafUpd.sepReal kfReal (fun _ : Nat => []) (fun k => 100 + k) (fun k => 200 + k) false emptyTree
+      [(7, some (20, false)), (9, some (30, false))] 0).map
+      (fun o => (o.leafChangeset, (BranchUpd.flat o.index).map (fun e => (e.key, e.val)), o.index.map (·.bbn))) =
+      some ([(0, some 100)], [(0, 100)], [200]) :=
+  ⟨emptyTree_ok, by decide +kernel⟩
 
 /-! ## non-vacuity and the seeded change at the level of the whole update -/
 
@@ -119,7 +247,6 @@ theorem exTree_ok : TreeOK exTree where
         | (intro c hc; cases hc)
     nonempty := by decide
     zero := by intro l hl; simp [exTree] at hl; subst hl; rfl }
-  ne := by simp [exTree]
   index := by decide +kernel
   level := by decide +kernel
 
